@@ -192,17 +192,32 @@ def check(run):
     tr = [e.term for e in gc.events if e.kind == 'call' and is_call_to(e.term, 'numpy.trace')]
     okt = bool(tr) and {const_val(call_arg(tr[0], None, 'axis1')), const_val(call_arg(tr[0], None, 'axis2'))} == {-1, -2}
     run.check(okt, 'R-AXIS', 'condition_covariance: trace over the last two axes', fc.loc(), '', 'np.trace is not taken over axis1/axis2 = -2/-1', construct=f'R-AXIS::{QC}::trace-axes')
-    ret = strip_views(gc.ret)
-    okr = ret.op == 'binop' and ret.args[0] == 'Div'
-    if okr:
-        num, den = strip_views(ret.args[1]), strip_views(ret.args[2])
-        okr = num.op == 'binop' and num.args[0] == 'Add' and any(strip_views(x).op == 'param' and strip_views(x).args[0] == 'x' for x in (num.args[1], num.args[2])) \
-            and den.op == 'binop' and den.args[0] == 'Add' and {const_val(den.args[1]), 'g' if derives(den.args[2], 'gamma') else None} >= {1, 'g'}
-    run.check(okr, 'R-ROLE', 'condition_covariance: (x + scaled identity) / (1 + gamma)', fc.loc(), '', 'return value is not (x + scaled_eye) / (1 + gamma)', construct=f'R-ROLE::{QC}::form')
-    scale = [t for e in gc.events if e.term is not None for t in walk_terms(e.term) if t.op == 'binop' and t.args[0] == 'Div' and any(x is tr[0] for x in walk_terms(t.args[1]))] if tr else []
-    oks = False
-    for t in scale:
-        d = strip_views(t.args[2])
-        if d.op == 'sub' and const_val(d.args[1]) == -1 and d.args[0].op == 'attr' and d.args[0].args[1] == 'shape':
-            oks = derives(t.args[1], 'gamma')
-    run.check(oks, 'R-ROLE', 'condition_covariance: loading = gamma * trace / D', fc.loc(), '', 'diagonal loading is not gamma * trace(x) / x.shape[-1]', construct=f'R-ROLE::{QC}::scale')
+    # the whole expression in rational normal form over {x, gamma, tr(x), D, I}: (x + gamma * tr / D * I) / (1 + gamma), any arrangement
+    from ..ratfun import rational, NotRational, A as _A, C as _C
+    from ..walk import shape_dim
+
+    def atoms(t):
+        t0 = strip_views(t)
+        if t0.op == 'param':
+            return {'x': 'x', 'gamma': 'gamma'}.get(t0.args[0])
+        if tr and t0 is tr[0]:
+            return 'tr'
+        sd = shape_dim(t0)
+        if sd is not None and sd[0].op == 'param' and sd[0].args[0] == 'x':
+            return 'D' if sd[1] in (-1, -2) else f'x.shape[{sd[1]}]'
+        # the identity, broadcast against the leading axes: np.eye(D) / np.eye(D).reshape(1, ..., 1, D, D) / np.identity(D)
+        e0 = t0
+        if is_call_to(e0, 'numpy.reshape') or (e0.op == 'call' and e0.args[0].op == 'attr' and e0.args[0].args[1] == 'reshape'):
+            e0 = strip_views(call_arg(e0, 0))
+        if is_call_to(e0, 'numpy.eye', 'numpy.identity'):
+            sd = shape_dim(call_arg(e0, 0))
+            return 'I' if sd is not None and sd[0].op == 'param' and sd[0].args[0] == 'x' and sd[1] in (-1, -2) else 'I?'
+        return None
+    try:
+        got = rational(gc.ret, atoms)
+    except NotRational as e:
+        run.unresolved('R-ROLE', 'condition_covariance: form', fc.loc(), f'not a recognised rational expression ({e})')
+    else:
+        want = (_A('x') + _A('gamma') * _A('tr') / _A('D') * _A('I')) / (_C(1) + _A('gamma'))
+        run.check(got.same(want), 'R-ROLE', 'condition_covariance: (x + gamma * tr(x) / D * I) / (1 + gamma)', fc.loc(), '',
+                  f'the conditioned matrix is not (x + gamma * trace(x) / D * I) / (1 + gamma) (found {got})', construct=f'R-ROLE::{QC}::form')
